@@ -227,7 +227,8 @@ where
     let r = <Cow<'b, [E]> as Unmarshal>::unmarshal(&mut ctx);
     let used = buf.len() - ctx.remainder().len() - offset;
     let res = match &r {
-        Ok(Cow::Borrowed(s)) if (s.as_ptr() as usize) % std::mem::align_of::<E>() != 0 => {
+        // black_box: the compiler may assume that a reference is aligned and fold the test away
+        Ok(Cow::Borrowed(s)) if std::hint::black_box(s.as_ptr() as usize) % std::mem::align_of::<E>() != 0 => {
             format!("ub what=misaligned_borrowed_slice used={}", used)
         }
         Ok(_) => format!("ok used={}", used),
